@@ -25,6 +25,7 @@ RULE = ("(a) exhaustive: all insert sequences of length <= 4 over 2 keys and <= 
         "every insert; (b) random histories up to 14 ops over 1-4 keys and 3 values with overwrites, clears and lookups "
         "carrying extra non-key entries. Non-trivial: a lookup whose specification answer is non-empty and differs from "
         "'everything stored'; distinct = distinct (history prefix, lookup).")
+RULE += " Size cases (every tier): histories of 40-800 inserts over alphabets of 8-20 values per key (hundreds of distinct bindings, dozens of coverage records), looked up after every 50th operation and at the end."
 LEVEL_TEXT = ("Reference-model monitoring of a data structure in isolation: every answer of check / retrieve / clear after "
               "every step of enumerated and random histories is compared with a 10-line list model; the bounded part is "
               "exhaustive. The listed deviation K20 is recognised only by equality with an executable model of exactly "
